@@ -81,7 +81,7 @@ func collectTemplates(c *core.Ctx, r *core.Report) []viewTemplate {
 	}
 	// Views field -> templates field (views.New)
 	viewOf := map[string]string{}
-	nw := c.MustFn(viewsRel, "New")
+	nw := delegateTarget(c.MustFn(viewsRel, "New"))
 	for _, ret := range an.Returns(nw) {
 		lit := an.StructLiteralOf(ret.Results[0])
 		if lit == nil {
@@ -129,25 +129,23 @@ func collectTemplates(c *core.Ctx, r *core.Report) []viewTemplate {
 			}
 			ft, _ := an.TerminalField(tmpls[0])
 			same := ft != nil
-			sets := map[string]bool{}
+			parsed := true
 			for _, t := range tmpls {
 				f2, _ := an.TerminalField(t)
 				if f2 == nil || ft == nil || f2.Name() != ft.Name() {
 					same = false
 				}
-				// which parsed set it is taken from: the parseTemplates call behind it
-				d := an.D().Of(t)
-				if i := strings.Index(d, "parseTemplates("); i >= 0 {
-					if j := strings.Index(d[i:], ")"); j >= 0 {
-						sets[d[i:i+j+1]] = true
-					}
+				// taken from a parsed template set (which rendering goes where — colours on a terminal, or never — is not
+				// part of what the views state)
+				if !strings.Contains(an.D().Of(t), "parseTemplates(") {
+					parsed = false
 				}
 			}
 			if !same {
 				r.Violation("views.New#"+vf, an.Pos(c, ret), "view %s pairs template %s with a different template: the two output forms state different things", vf, an.D().Of(tmpls[0]))
 				continue
 			}
-			r.Check(len(sets) == len(tmpls), "views.New#"+vf+"-colours", an.Pos(c, ret), "one template from each parsed set (coloured, plain)", sprintf("the templates of %s come from %d parsed sets, expected %d (one per rendering)", vf, len(sets), len(tmpls)))
+			r.Check(parsed, "views.New#"+vf+"-colours", an.Pos(c, ret), "every rendering of the view is taken from a parsed template set", "a template of "+vf+" does not come from parseTemplates")
 			viewOf[vf] = ft.Name()
 		}
 	}
